@@ -30,7 +30,9 @@ CONSTANTS Addrs, Sources, Networks, Flags,
           HNPos(_, _, _),  \* how the value of `hash` is read: position of address a in new bucket b
           HTSlot(_, _)     \*                                  tried slot of address a
 
-VARIABLES uni,      \* the address universe: [net, routable, self : Addrs -> ..]; self[a] = the source whose IP is a's, or "none"
+VARIABLES uni,      \* the address universe: [net, cls, routable, self : Addrs -> ..]; net[a] = GetNetwork() (the key of the per-network
+                    \* counters), cls[a] = GetNetClass() (GetAddr's filter; differs from net for IPv6 addresses that embed an IPv4
+                    \* address: 6to4, Teredo, NAT64, SIIT); self[a] = the source whose IP is a's, or "none"
           hash,     \* the keyed hashes (model checking: [tslot : Addrs -> slot, npos : Addrs -> Seq(position)]; trace: the line that has them)
           now,      \* the (mock) clock
           info, newT, triedT, coll, stale, lastGood, cnt, nNew, nTried, nAll,
@@ -57,6 +59,7 @@ EmptySt == [info |-> [a \in Addrs |-> Blank], newT |-> {}, triedT |-> {}, coll |
             cnt |-> [n \in Networks |-> [n |-> 0, t |-> 0]], nNew |-> 0, nTried |-> 0, nAll |-> 0]
 
 Net(a) == uni.net[a]
+Cls(a) == uni.cls[a]
 NPos(a, b) == HNPos(hash, a, b)
 TSlot(a) == HTSlot(hash, a)
 \* a table is a set of <<slot, address>>
@@ -202,7 +205,7 @@ SelectSet(S, newOnly, nets) ==
 GetAddrOK(S, maxA, pct, net, filtered, R) ==
   LET n0 == IF pct # 0 THEN (Min(pct, 100) * S.nAll) \div 100 ELSE S.nAll
       n1 == IF maxA # 0 THEN Min(n0, maxA) ELSE n0
-      elig == {a \in Addrs : S.info[a].known /\ (net = "any" \/ Net(a) = net) /\ ~(filtered /\ Terrible(S.info[a], now))}
+      elig == {a \in Addrs : S.info[a].known /\ (net = "any" \/ Cls(a) = net) /\ ~(filtered /\ Terrible(S.info[a], now))}
   IN R \subseteq elig /\ Cardinality(R) = Min(n1, Cardinality(elig))
 
 (* ------------------------------------------------------------------ Serialize -> Unserialize into a fresh AddrMan *)
